@@ -75,7 +75,7 @@ fn main() {
 			"api" => api::suite(&mut out, seed, thorough, &arg(&args, "--which").unwrap_or_else(|| "routes".into())),
 			"ind" => {
 				let filter: Vec<String> = arg(&args, "--indicators").map(|s| s.split(',').map(|x| x.to_string()).collect()).unwrap_or_default();
-				indicators::suite(&mut out, seed, thorough, &filter)
+				indicators::suite(&mut out, seed, thorough, &filter, args.iter().any(|a| a == "--large-only"))
 			}
 			"indapi" => {
 				let filter: Vec<String> = arg(&args, "--indicators").map(|s| s.split(',').map(|x| x.to_string()).collect()).unwrap_or_default();
